@@ -24,6 +24,9 @@ type spec struct {
 	Start   string `json:"start"`    // ready | nopipe | held
 	Faults  int    `json:"faults"`
 	End     string `json:"end"` // answer | supersede | ctxclose | sockclose | recvtimeout
+	// FNP: fail-no-peers is set as well; the script then never lets the number of connected peers
+	// reach zero, so the option must make no difference to re-sending
+	FNP bool `json:"fnp,omitempty"`
 }
 
 func TestC04(t *testing.T) {
@@ -38,6 +41,15 @@ func TestC04(t *testing.T) {
 		// enumerate (start x end x retry) cells cyclically, randomise the rest
 		sp := spec{NCtx: 1 + rnd.Intn(3), NPipes: 1 + rnd.Intn(4), RetryMs: retries[i%len(retries)],
 			Start: starts[(i/len(retries))%len(starts)], End: ends[(i/(len(retries)*len(starts)))%len(ends)], Faults: rnd.Intn(5)}
+		if sp.Start != "nopipe" && rnd.Intn(3) == 0 {
+			sp.FNP = true
+			if sp.NPipes < 2 {
+				sp.NPipes = 2 + rnd.Intn(3)
+			}
+			if sp.Faults == 0 {
+				sp.Faults = 1 + rnd.Intn(4)
+			}
+		}
 		cases = append(cases, mon.CaseSpec{Name: fmt.Sprintf("%s/%s/r%d", sp.Start, sp.End, sp.RetryMs), Spec: sp})
 	}
 	for i := 0; i < n/6; i++ {
@@ -83,6 +95,9 @@ func runScript(c *mon.Case, sp spec) {
 		return
 	}
 	rig.SetAll(mangos.OptionRetryTime, R)
+	if sp.FNP {
+		rig.SetAll(mangos.OptionFailNoPeers, true)
+	}
 	fi := c.Rand.Intn(sp.NCtx) // focus context
 	if sp.End == "ctxclose" && fi == 0 {
 		if sp.NCtx == 1 {
@@ -216,7 +231,7 @@ func runScript(c *mon.Case, sp spec) {
 		n := len(rig.TxsOf(fi, 1))
 		live := rig.LivePipes()
 		switch x := c.Rand.Intn(10); {
-		case x < 4 && len(live) > 0: // drop the carrier of the latest transmission
+		case x < 4 && len(live) > 0 && (!sp.FNP || len(live) > 1): // drop the carrier of the latest transmission
 			lt := lastTx()
 			if cl, _, _ := lt.Pipe.Closed(); cl {
 				continue
@@ -249,7 +264,7 @@ func runScript(c *mon.Case, sp spec) {
 					break
 				}
 			}
-		case x < 7 && c.Rand.Intn(2) == 0 && R > 0 && R < time.Hour:
+		case x < 7 && c.Rand.Intn(2) == 0 && R > 0 && R < time.Hour && !sp.FNP:
 			// no peer at all for several retry intervals: the request waits in the queue, retry timers
 			// expire meanwhile, and when a peer finally connects it is transmitted ONCE
 			for _, p := range live {
@@ -544,7 +559,7 @@ func runScript(c *mon.Case, sp spec) {
 	if len(all) > 1 || canceled {
 		c.Nontrivial()
 	}
-	c.Sig("%s|%s|%s|r%d|tx%d", sp.Start, events, sp.End, sp.RetryMs, len(all))
+	c.Sig("%s|%s|%s|r%d|tx%d|fnp%v", sp.Start, events, sp.End, sp.RetryMs, len(all), sp.FNP)
 }
 
 func endKind(end string, canceled bool) string {
